@@ -164,6 +164,17 @@ def check_paths(rep, tree, scripts, work, http=False):
 
 
 def validate_hist(runs, work):
+    """WebIdeHistTrace over the recorded histories, 300 runs at a time: the runs of one file are ONE behaviour of the
+    trace specification, and TLC handles behaviours of at most 65 535 states (the thorough tier records more events)."""
+    rejected, states = [], 0
+    for c0 in range(0, len(runs), 300):
+        r, s = validate_hist_chunk(runs[c0:c0 + 300], work)
+        rejected += [(c0 + k, stuck) for k, stuck in r]
+        states += s
+    return rejected, states
+
+
+def validate_hist_chunk(runs, work):
     rejected, states, live = [], 0, list(range(len(runs)))
     for attempt in range(25):
         if not live:
